@@ -1042,7 +1042,7 @@ class Interp:
                 # folding a constant pattern over a constant string
                 rx = _re.compile(pat.pattern, pat.flags) if isinstance(pat, RegexVal) else _re.compile(pat)
                 r = getattr(rx, name)(args[1])
-                return list(r) if name == "finditer" else r
+                return iter(list(r)) if name == "finditer" else r
             hook = self.hooks.get("re:predicate")
             if hook is not None:
                 return hook(self, name, pat, args[1], node)
@@ -1382,7 +1382,7 @@ class Interp:
             if attr in ("search", "match", "fullmatch", "finditer", "findall", "split") and args and all(isinstance(a, str | int) for a in args):
                 # folding a constant pattern over a constant string
                 r = getattr(_re.compile(base.pattern, base.flags), attr)(*args)
-                return list(r) if attr == "finditer" else r
+                return iter(list(r)) if attr == "finditer" else r
             # a constant pattern applied to an abstract text: the result is an abstract value derived from it
             subj = args[1] if attr in ("sub", "subn") and len(args) > 1 else (args[0] if args else None)
             if isinstance(subj, Sym | SymStr):
@@ -1671,7 +1671,9 @@ class Interp:
 
     def s_For(self, s, env, m):
         broke = False
-        for item in self.iterate(self.eval(s.iter, env, m), s.iter):
+        itv = self.eval(s.iter, env, m)
+        # a for-loop over an iterator object draws from it one element at a time (the body may advance it with next())
+        for item in (itv if isinstance(itv, _Iterator) else self.iterate(itv, s.iter)):
             self.assign(s.target, item, env, m)
             try:
                 self.exec_block(s.body, env, m)
